@@ -8,6 +8,18 @@ ALL = [f"C{i:02d}" for i in range(1, 21)]
 
 # id -> (category, technique, text, note, engine, design_ref)
 CHECKS = {
+ "C01": ("exploration", "grammar-exhaustive enumeration of wire messages, each run twice through the complete read-side script on the real code under catch_unwind + hang watchdog",
+         "Every message derivable from the token grammar (header-count variants x 1-3 items x per-field menus: ~35 record types with every internal length field short/long, rdlen exact/-1/+1/0/0xFFFF, names with pointers to every landmark incl. self/forward/chained/into-rdata) plus every raw body over 9 symbols to length 5 (quick) / 7 (thorough) and every truncation of short messages is run through header, all section/record iterators, AllRecordData and AllOptData parsing, canonical_name, is_answer, copy_records, dig/zone display, Label::iter_slice from every offset and the XFR interpreter; oracle: no panic, terminates (watchdog), identical transcript on second traversal, returned names equal an independent decompression and are usable.",
+         "Octet values outside the menus and messages with more than three items are not covered; out-of-bounds reads behind unsafe are only caught if they panic or change the transcript.",
+         "gramx", "DESIGN.md §3 C01"),
+ "C03": ("model_checking", "explicit-state BFS to fixpoint over the abstract state graph of the real NameBuilder + grammar-exhaustive constructor/slicing enumeration",
+         "Part 1 explores ALL reachable abstract builder states (len, open-label length) - a complete fixpoint, not a depth bound - executing every operation of the menu on the real NameBuilder in every state (twice, with different fill octets) against an abstract RFC-limit model and an independent wire validator. Part 2 enumerates every presentation string over 11 symbols to length 6/7, boundary-length families, every wire string from a label-length menu, raw octet strings, every index pair for slice/range/split/truncate, and chain() over a length menu, against an independent validator and text/wire round trips.",
+         "Builder control flow depends only on (len, open-label length) (checked per transition); strings with unescaped space/quote/'['/non-ASCII are only required to yield valid names.",
+         "seqx", "DESIGN.md §3 C03"),
+ "C16": ("model_checking", "complete product enumeration through the real middleware stack + deviation-bounded exhaustive exploration (envx) of the real Dgram/Stream servers over mock sockets under a paused clock",
+         "(a) full product of transport x EDNS size x configured limit x response size boundaries x OPT/question/layout variants through MandatoryMiddlewareSvc<EdnsMiddlewareSvc<CookiesMiddlewareSvc<svc>>>; (b) all environment-answer/service-completion sequences with <=3 (quick) / <=4 (thorough) deviations for 3 pipelined requests incl. malformed ones on the real DgramServer and StreamServer; (c) pipeline depth 1..16/64. Oracle: independent deframer/parser: framing, ID/question echo, exactly-once, size bound, TC iff dropped, liveness of other connections, no panic in any task.",
+         "tokio current-thread FIFO scheduling with biased select! in the server code; mocks replace sockets; missing responses are excused on a connection the client or environment itself broke.",
+         "envx", "DESIGN.md §3 C16"),
  "C17": ("exploration", "flat exhaustive sweep of 2^32 cross-sections on the real Serial/Timestamp",
          "Every pair (base, c) for all 2^32 values c per base (2 bases quick, 14 thorough) is run through the real partial_cmp/operators/add/Timestamp and compared with RFC 1982 computed in u64; exhaustive within the cross-sections, which contain every branch pair of the implementation.",
          "Full 2^64 pair space is not swept; bases chosen at the boundaries (0, 2^31-1, 2^31, 2^32-1, ...).",
